@@ -38,7 +38,7 @@ type vfSRScript struct {
 	} `json:"steps"`
 }
 
-var errVfSRInjected = errors.New("injected RTCP write failure") //nolint:gochecknoglobals
+var errVfSRInjected error = vfInjErr{"injected RTCP write failure"} //nolint:gochecknoglobals
 
 var vfSREpoch = time.Date(2026, 1, 1, 0, 0, 0, 0, time.UTC) //nolint:gochecknoglobals
 
